@@ -3,6 +3,7 @@ package main
 import (
 	"fmt"
 	"go/ast"
+	"go/types"
 	"io"
 	"os"
 	"path/filepath"
@@ -11,7 +12,7 @@ import (
 	"strings"
 
 	"golang.org/x/tools/go/callgraph"
-	"golang.org/x/tools/go/callgraph/cha"
+	"golang.org/x/tools/go/callgraph/rta"
 	"golang.org/x/tools/go/callgraph/vta"
 	"golang.org/x/tools/go/packages"
 	"golang.org/x/tools/go/ssa"
@@ -166,13 +167,53 @@ func (c *Ctx) load(fixtures []string, allPackages bool) error {
 	return nil
 }
 
-// CG returns the VTA call graph (seeded by CHA), built on first use.
+// CG returns the VTA call graph, built on first use. ssautil.AllFunctions only
+// contains methods of types that are converted to interfaces somewhere, so
+// the function set is extended by every source function of the repository and
+// the fixtures (exported API that nobody calls inside the module), and the
+// initial graph is an RTA graph rooted at all of them.
 func (c *Ctx) CG() *callgraph.Graph {
 	if c.cg == nil {
-		c.chaCG = cha.CallGraph(c.Prog)
-		c.cg = vta.CallGraph(ssautil.AllFunctions(c.Prog), c.chaCG)
+		funcs := ssautil.AllFunctions(c.Prog)
+		var roots []*ssa.Function
+		packages.Visit(c.Pkgs, nil, func(p *packages.Package) {
+			if !c.isRepoPkg(p.Types) && !strings.HasPrefix(p.PkgPath, "verif/fixtures") {
+				return
+			}
+			for _, fn := range c.srcFuncs(p) {
+				if isGenericFn(fn) {
+					continue
+				}
+				funcs[fn] = true
+				roots = append(roots, fn)
+			}
+		})
+		res := rta.Analyze(roots, true)
+		for fn := range res.Reachable {
+			funcs[fn] = true
+		}
+		c.chaCG = res.CallGraph
+		c.cg = vta.CallGraph(funcs, c.chaCG)
 	}
 	return c.cg
+}
+
+func isGenericFn(fn *ssa.Function) bool {
+	for f := fn; f != nil; f = f.Parent() {
+		if f.TypeParams().Len() > 0 && len(f.TypeArgs()) == 0 {
+			return true
+		}
+		if recv := f.Signature.Recv(); recv != nil {
+			t := recv.Type()
+			if p, ok := t.(*types.Pointer); ok {
+				t = p.Elem()
+			}
+			if n, ok := t.(*types.Named); ok && n.TypeParams().Len() > 0 && n.TypeArgs().Len() == 0 {
+				return true
+			}
+		}
+	}
+	return false
 }
 
 func (c *Ctx) CHA() *callgraph.Graph {
